@@ -116,6 +116,50 @@ example : decttl [0, 0, 1] = (0, [0, 0, 0]) := by decide
 example : decttl [0, 0] = (0, [0, 0]) := by decide
 example : decttl [] = (0, []) := by decide
 
+/-! ### a chain of proxies: the hop limit is a bound on every forwarding path -/
+
+/-- `k` successive proxies each apply `decttl` to the value the previous one forwarded;
+    the chain goes on only while `decttl` returns 1 (a 0 makes `checkttl` discard the message). -/
+def passes : Nat → Bytes → Bool
+  | 0, _ => true
+  | k + 1, v => (decttl v).1 == 1 && passes k (decttl v).2
+
+/-- A message whose TTL value is n (any length of value) is passed on by exactly the first
+    n-1 proxies of ANY forwarding path, loops included: the k-th proxy in a row forwards it
+    iff k < n. No bound on n, on the value's length or on the path. -/
+theorem hop_chain_exact (k : Nat) (v : Bytes) :
+    passes (k + 1) v = true ↔ k + 1 < beVal v := by
+  induction k generalizing v with
+  | zero =>
+    by_cases h0 : beVal v = 0
+    · simp [passes, decttl_zero v h0, h0]
+    · obtain ⟨_, hr⟩ := decttl_pos v (Nat.pos_of_ne_zero h0)
+      simp only [passes, hr, Bool.and_true, beq_iff_eq]
+      by_cases h1 : beVal v - 1 = 0 <;> simp [h1] <;> omega
+  | succ k ih =>
+    by_cases h0 : beVal v = 0
+    · have : passes (k + 1 + 1) v = false := by
+        simp [passes, decttl_zero v h0]
+      simp [this, h0]
+    · obtain ⟨hv, hr⟩ := decttl_pos v (Nat.pos_of_ne_zero h0)
+      have ih' := ih (decttl v).2
+      rw [hv] at ih'
+      have hstep : passes (k + 1 + 1) v = ((decttl v).1 == 1 && passes (k + 1) (decttl v).2) := rfl
+      rw [hstep, Bool.and_eq_true, ih', hr, beq_iff_eq]
+      by_cases h1 : beVal v - 1 = 0 <;> simp [h1] <;> omega
+
+/-- Every forwarding path is finite: no value survives `beVal v` proxies, so a routing loop
+    (which `LoopPrevention` cannot see across several proxies) ends after fewer than n hops. -/
+theorem hop_chain_bounded (k : Nat) (v : Bytes) (h : passes k v = true) : k = 0 ∨ k < beVal v := by
+  cases k with
+  | zero => exact Or.inl rfl
+  | succ k => exact Or.inr ((hop_chain_exact k v).mp h)
+
+/-- Non-vacuity: the value 5 in two octets passes 4 proxies and not the 5th; a borrow chain
+    (256 in two octets) is crossed on the way down. -/
+example : passes 4 [0, 5] = true ∧ passes 5 [0, 5] = false := by decide
+example : passes 2 [1, 0] = true ∧ (decttl (decttl [1, 0]).2).2 = [0, 254] := by decide
+
 /-! ### the TTL attribute inside a message, AddTTL, loop prevention -/
 open Rsp.World Rsp.Radmsg in
 /-- plain TTL attribute type: `checkttl` decrements the FIRST attribute of that type (per
